@@ -137,7 +137,7 @@ func runAttCase(want string) func(ci interface{}, rec *pbt.Rec) *pbt.Failure {
 func runAttCaseObs(want string, obs func(h *sim.Hub, what string)) func(ci interface{}, rec *pbt.Rec) *pbt.Failure {
 	return func(ci interface{}, rec *pbt.Rec) *pbt.Failure {
 		c := ci.(*AttCase)
-		a := &firstFail{want: want}
+		a := &firstFail{want: want, lenient: true}
 		cfg := sim.Config{Tokens: attTokens, Prices: []sim.PriceCfg{{Name: "hub", Value: "1"}}}
 		for _, v := range c.Vals {
 			vc := sim.ValCfg{Power: v.Power, Bonded: v.Bonded}
@@ -186,8 +186,10 @@ func runAttCaseObs(want string, obs func(h *sim.Hub, what string)) func(ci inter
 				newObs := h.K.GetLastObservedEventNonce(ctx, mtypes.ChainID(ch))
 				mapping := h.K.GetExternalEventVoteRecordMapping(ctx, mtypes.ChainID(ch))
 				if newObs < lastObs[ch] {
-					a.fail("C03", "nonce-regressed", "%s: last observed nonce went from %d to %d", ch, lastObs[ch], newObs)
-					return
+					if a.fail("C03", "nonce-regressed", "%s: last observed nonce went from %d to %d", ch, lastObs[ch], newObs) {
+						return
+					}
+					lastObs[ch] = newObs
 				}
 				if newObs-lastObs[ch] >= 2 {
 					multiPerBlock++
@@ -200,8 +202,12 @@ func runAttCaseObs(want string, obs func(h *sim.Hub, what string)) func(ci inter
 						}
 					}
 					if len(acc) != 1 {
-						a.fail("C03", "accepted-count", "%s nonce %d applied but %d records are marked accepted", ch, n, len(acc))
-						return
+						if a.fail("C03", "accepted-count", "%s nonce %d applied but %d records are marked accepted", ch, n, len(acc)) {
+							return
+						}
+						if len(acc) == 0 {
+							continue
+						}
 					}
 					ev, err := mtypes.UnpackEvent(acc[0].Event)
 					if err != nil {
@@ -217,6 +223,7 @@ func runAttCaseObs(want string, obs func(h *sim.Hub, what string)) func(ci inter
 					}
 					if variant < 0 {
 						a.fail("C02", "unknown-event-applied", "%s nonce %d: applied event was never claimed", ch, n)
+						a.stop() // its effect is unknown to the model
 						return
 					}
 					if len(mapping[n]) > 1 {
@@ -227,8 +234,10 @@ func runAttCaseObs(want string, obs func(h *sim.Hub, what string)) func(ci inter
 					sum := big.NewInt(0)
 					for _, vs := range acc[0].Votes {
 						if seen[vs] {
-							a.fail("C02", "duplicate-vote-counted", "%s nonce %d: validator %s appears twice in the applied record", ch, n, vs)
-							return
+							if a.fail("C02", "duplicate-vote-counted", "%s nonce %d: validator %s appears twice in the applied record", ch, n, vs) {
+								return
+							}
+							continue
 						}
 						seen[vs] = true
 						idx := -1
@@ -238,16 +247,19 @@ func runAttCaseObs(want string, obs func(h *sim.Hub, what string)) func(ci inter
 							}
 						}
 						if idx < 0 || !want[idx] {
-							a.fail("C02", "vote-not-cast", "%s nonce %d: counted vote of %s which that validator did not cast for this event", ch, n, vs)
-							return
+							if a.fail("C02", "vote-not-cast", "%s nonce %d: counted vote of %s which that validator did not cast for this event", ch, n, vs) {
+								return
+							}
+							continue
 						}
 						sum.Add(sum, big.NewInt(h.Staking.GetLastValidatorPower(ctx, sim.ValAddr(idx))))
 					}
 					lhs := new(big.Int).Mul(sum, big.NewInt(100))
 					rhs := new(big.Int).Mul(big.NewInt(total), big.NewInt(66))
 					if lhs.Cmp(rhs) < 0 {
-						a.fail("C02", "quorum-below-66pct", "%s nonce %d applied with voting power %s of total %d (< 66%%)", ch, n, sum, total)
-						return
+						if a.fail("C02", "quorum-below-66pct", "%s nonce %d applied with voting power %s of total %d (< 66%%)", ch, n, sum, total) {
+							return
+						}
 					}
 					expectBal[variant].Add(expectBal[variant], attAmount(n, variant))
 					applied++
@@ -264,8 +276,9 @@ func runAttCaseObs(want string, obs func(h *sim.Hub, what string)) func(ci inter
 						}
 					}
 					if cnt > 1 || (cnt == 1 && n > newObs) {
-						a.fail("C03", "accepted-flag", "%s nonce %d: %d accepted records, last observed %d", ch, n, cnt, newObs)
-						return
+						if a.fail("C03", "accepted-flag", "%s nonce %d: %d accepted records, last observed %d", ch, n, cnt, newObs) {
+							return
+						}
 					}
 				}
 				lastObs[ch] = newObs
@@ -274,14 +287,16 @@ func runAttCaseObs(want string, obs func(h *sim.Hub, what string)) func(ci inter
 			for u := 0; u < 3; u++ {
 				got := h.Balance(sim.UserAddr(u), "hub")
 				if got.Cmp(expectBal[u]) != 0 {
-					a.fail("C03", "effect-mismatch", "user %d holds %s, but the events applied exactly once in order give %s", u, got, expectBal[u])
-					return
+					if a.fail("C03", "effect-mismatch", "user %d holds %s, but the events applied exactly once in order give %s", u, got, expectBal[u]) {
+						return
+					}
 				}
 				supply.Add(supply, got)
 			}
 			if s := h.Supply("hub"); s.Cmp(supply) != 0 {
-				a.fail("C03", "supply-mismatch", "supply %s but applied events minted %s", s, supply)
-				return
+				if a.fail("C03", "supply-mismatch", "supply %s but applied events minted %s", s, supply) {
+					return
+				}
 			}
 			dirtySinceVote = false
 		}
@@ -395,12 +410,20 @@ func runAttCaseObs(want string, obs func(h *sim.Hub, what string)) func(ci inter
 				ok := r.Err == nil
 				if !signerOK {
 					rejected++
-					if ok {
-						a.fail("C02", "unbonded-vote-accepted", "claim signed by %s (bonded=%v, orchestrator registered=%v, via=%d) was accepted", signer, h.Staking.Vals[v].Bonded, orchOf[key] != nil, op.Via)
-					} else if h.StateHash() != before {
-						a.fail("C02", "rejected-vote-wrote", "rejected claim changed state")
+					if !ok {
+						if h.StateHash() != before {
+							a.fail("C02", "rejected-vote-wrote", "rejected claim changed state")
+						}
+						break
 					}
-					break
+					if a.fail("C02", "unbonded-vote-accepted", "claim signed by %s (bonded=%v, orchestrator registered=%v, via=%d) was accepted", signer, h.Staking.Vals[v].Bonded, orchOf[key] != nil, op.Via) {
+						break
+					}
+					if _, has := orchOf[key]; op.Via == 1 && !has {
+						a.stop() // accepted from an account bound to nobody: the model cannot say whose vote it became
+						break
+					}
+					// (another property's business: go on as the code did, with an accepted claim of validator v)
 				}
 				if voted[key] {
 					mustAccept := nonce == lastByVal[key]+1
@@ -408,16 +431,19 @@ func runAttCaseObs(want string, obs func(h *sim.Hub, what string)) func(ci inter
 						replays++
 					}
 					if ok && !mustAccept {
-						a.fail("C03", "non-contiguous-claim-accepted", "validator %d on %s: last claim %d, claim for nonce %d accepted", v, ch, lastByVal[key], nonce)
-						break
+						if a.fail("C03", "non-contiguous-claim-accepted", "validator %d on %s: last claim %d, claim for nonce %d accepted", v, ch, lastByVal[key], nonce) {
+							break
+						}
 					}
 					if !ok && mustAccept {
-						a.fail("C03", "contiguous-claim-rejected", "validator %d on %s: claim for nonce %d right after %d rejected: %v", v, ch, nonce, lastByVal[key], r.Err)
-						break
+						if a.fail("C03", "contiguous-claim-rejected", "validator %d on %s: claim for nonce %d right after %d rejected: %v", v, ch, nonce, lastByVal[key], r.Err) {
+							break
+						}
 					}
 					if !ok && h.StateHash() != before {
-						a.fail("C03", "rejected-vote-wrote", "rejected claim changed state")
-						break
+						if a.fail("C03", "rejected-vote-wrote", "rejected claim changed state") {
+							break
+						}
 					}
 				}
 				if !ok {
@@ -426,16 +452,18 @@ func runAttCaseObs(want string, obs func(h *sim.Hub, what string)) func(ci inter
 				}
 				vk := fmt.Sprintf("%s|%d|%d", ch, v, nonce)
 				if votedNonce[vk] {
-					a.fail("C03", "double-vote-same-nonce", "validator %d voted twice for %s nonce %d", v, ch, nonce)
-					break
+					if a.fail("C03", "double-vote-same-nonce", "validator %d voted twice for %s nonce %d", v, ch, nonce) {
+						break
+					}
 				}
 				votedNonce[vk] = true
 				voted[key] = true
 				lastByVal[key] = nonce
 				// the resume point orchestrators ask for is the validator's last claimed nonce
 				if q, err := h.K.LastSubmittedExternalEvent(sdk.WrapSDKContext(h.Ctx()), &mtypes.LastSubmittedExternalEventRequest{Address: signer.String(), ChainId: ch}); err != nil || q.EventNonce != nonce {
-					a.fail("C03", "resume-point-query", "validator %d on %s claimed nonce %d, LastSubmittedExternalEvent answers %v (%v)", v, ch, nonce, q, err)
-					break
+					if a.fail("C03", "resume-point-query", "validator %d on %s claimed nonce %d, LastSubmittedExternalEvent answers %v (%v)", v, ch, nonce, q, err) {
+						break
+					}
 				}
 				k := nv{ch, nonce, op.Variant}
 				if voters[k] == nil {
